@@ -1081,3 +1081,19 @@ Example ex_unknown_command_not_misread :
      OC ORaw; OW COther; OE (ERet true);
      OC OAlive; OW CAlive; OR (RAck CAlive); OE (ERet true)] = false.
 Proof. vm_compute. reflexivity. Qed.
+
+(* ------------------------------------------------------------------ trace validation is sound *)
+(* a trace the checker accepts is the python-side projection of a run of the LTS from an initial
+   configuration: the theorems above speak about the configurations real sessions went through *)
+Theorem accepted_trace_is_behaviour_proof :
+  forall sandbox os, accepts_obs sandbox os = true ->
+    exists ls c, run conf label stepf (conf0 sandbox) ls = Some c
+                 /\ obs_list_eqb (project ls) os = true /\ reach c.
+Proof.
+  intros b os H. unfold accepts_obs in H.
+  destruct (elab (conf0 b) os []) as [ls|]; [|discriminate H].
+  apply andb_true_iff in H as [Ha Hp].
+  destruct (accepts_reachable conf label stepf init (conf0 b) ls) as (c & Hrun & Hreach);
+    [exists b; reflexivity | exact Ha |].
+  exists ls, c. auto.
+Qed.
